@@ -87,7 +87,16 @@
      * a middleware that fails before calling next returns the context it was given (as the
        repository's own middlewares do, core/pkg/api/auth): no returned-context verif params
        exist at a failure point.  (A ZERO Context returned by a gRPC server middleware makes
-       UnaryServer.Exec dereference a nil context in attachContext: not exercised.)           *)
+       UnaryServer.Exec dereference a nil context in attachContext: not exercised.)
+
+   Known disagreement of the real code with ErrFlow / Result (reported by the check, signature
+   "X02 http error received from the server: expected the error of a server middleware, got a
+   decode failure [client codec mixed]"): the http server copies EVERY string param of the
+   context returned by the server chain into the response headers (setResponseCtx).  When a
+   server middleware fails before calling next and returns the request context, all request
+   headers - Content-Type, Authorization, ... - are reflected, and the reflected Content-Type
+   replaces the negotiated one: a client whose request codec differs from the negotiated
+   response codec cannot decode the error payload and sees a decode error instead.            *)
 EXTENDS Naturals, Sequences, FiniteSets
 
 CONSTANTS MaxK, MaxM,     \* bounds on the number of client / server middlewares
